@@ -276,10 +276,43 @@ def dec(rng, lo, hi, nd=3):
     return f"{s}{v // q}.{v % q:0{nd}d}"
 
 
+def row_order(rows, salt=""):
+    """order in which the rows of one frame of a neighbour / bond-property file are written.  Every row carries its particle id, so the
+    file means the same in any order; a reader that stores a row by its position in the file is wrong on exactly the files whose rows
+    are not in increasing id order (and a wrong re-ordering that is an involution only shows on a cycle of three or more).  The
+    order is a function of the rows themselves (and `salt`), so a stored case reproduces it."""
+    import zlib
+    n = len(rows)
+    r = random.Random(f"roworder:{salt}:{n}:{zlib.crc32(repr(rows).encode())}")
+    idx = list(range(n))
+    k = r.random()
+    if n < 3 or k < 0.4:
+        return idx
+    if k < 0.7:
+        s = r.randrange(1, n)
+        return idx[s:] + idx[:s]
+    r.shuffle(idx)
+    return idx
+
+
 def sparse_tilt(rng, H, p=0.4):
     """3D triclinic cells with only some of the three tilt factors (xy, xz, yz) non-zero — in place; code that tests "is the
     cell tilted" on part of the matrix is wrong on exactly these"""
-    if len(H) < 3 or rng.random() >= p:
+    if len(H) < 3:
+        return H
+    if rng.random() < 0.12:
+        # tilt factors that cancel (xy = −xz ≠ 0, yz = 0): the off-diagonal entries SUM to zero although the cell is tilted
+        xy = H[1][0]
+        if isinstance(xy, str):
+            if xy.strip("-0.") != "":
+                H[2][0] = xy[1:] if xy.startswith("-") else "-" + xy
+                H[2][1] = "0"
+                return H
+        elif xy != 0:
+            H[2][0] = -xy
+            H[2][1] = type(xy)(0)
+            return H
+    if rng.random() >= p:
         return H
     keep = rng.choice([[0], [1], [2], [0, 1], [0, 2], [1, 2]])
     for n, (i, j) in enumerate([(1, 0), (2, 0), (2, 1)]):
